@@ -4,9 +4,9 @@ tabix (tabix/tabix.go) and CSI v1/v2 (csi/csi_{read,write}.go): little-endian wr
 the statistics pseudo-bin, the optional trailing unplaced count, and `norm` (what the readers and
 `sort()` canonicalise).  Core Lean only.
 
-Readers return `Except Fault`: `err` where the Go reader returns an error, `panic` where it would
-panic (`make` with a negative length; tabix name block of length 0).  `bam.ReadIndex` and
-`tabix.ReadFrom` return `(nil, nil)` for a reference count of 0: that is the `none` of the result.
+Readers return `Except Fault`: `err` where the Go reader returns an error (incl. negative counts, since
+the repairs of C11), `panic` where it would panic (no reachable site is left; the constructor is kept
+for the unreachable branches).  An index without references round-trips like any other.
 -/
 import Hts.Model.Index
 import Hts.Model.Csi
@@ -66,9 +66,9 @@ def rep {α : Type} (p : P α) : Nat → P (List α)
       | .error e => .error e
     | .error e => .error e
 
-/-- `make([]T, n)` followed by a loop of `n` reads: panics for a negative `n` -/
+/-- `make([]T, n)` followed by a loop of `n` reads; a negative `n` is rejected with an error -/
 def counted {α : Type} (n : Int) (p : P α) : P (List α) := fun bs =>
-  if n < 0 then .error .panic else rep p n.toNat bs
+  if n < 0 then .error .err else rep p n.toNat bs
 
 /-- `io.ReadFull(r, buf[:n])` -/
 def rBytes (n : Nat) : P Bytes := fun bs =>
@@ -143,7 +143,7 @@ def rBins : P (List Bin × Option Stats) := fun bs => match rI32 bs with
   | .error e => .error e
   | .ok (n, rest) =>
     if n = 0 then .ok (([], none), rest)
-    else if n < 0 then .error .panic
+    else if n < 0 then .error .err
     else match rBinLoop statsDummyBin n.toNat [] none rest with
       | .error e => .error e
       | .ok ((bins, st), rest') => .ok ((bins.mergeSort leBin, st), rest')
@@ -190,18 +190,14 @@ def baiMagic : Bytes := [0x42, 0x41, 0x49, 0x01]
 def writeBai (i : Index) : Bytes := baiMagic ++ i32 i.refs.length ++ wIndex i
 
 /-- `bam.ReadIndex` -/
-def readBai (bs : Bytes) : Except Fault (Option Index) :=
+def readBai (bs : Bytes) : Except Fault Index :=
   match rBytes 4 bs with
   | .error e => .error e
   | .ok (m, r1) =>
     if m ≠ baiMagic then .error .err else
     match rI32 r1 with
     | .error e => .error e
-    | .ok (n, r2) =>
-      if n = 0 then .ok none else
-      match rIndex n r2 with
-      | .error e => .error e
-      | .ok i => .ok (some i)
+    | .ok (n, r2) => rIndex n r2
 
 /-! ### tabix -/
 open Hts.Model.Tabix in
@@ -245,7 +241,11 @@ def rTabixHeader : P (Header × List Name) := fun bs =>
             | .ok (sk, r6) => match rI32 r6 with
               | .error e => .error e
               | .ok (n, r7) =>
-                if n < 0 then .error .panic else
+                if n < 0 then .error .err else
+                if n = 0 then
+                  .ok (({ format := (fmt % 256).toNat, zeroBased := decide ((fmt / 65536) % 2 = 1),
+                          nameCol := nc, begCol := bc, endCol := ec, metaChar := mc, skip := sk }, []), r7)
+                else
                 match rBytes n.toNat r7 with
                 | .error e => .error e
                 | .ok (nb, r8) =>
@@ -259,7 +259,7 @@ def rTabixHeader : P (Header × List Name) := fun bs =>
 
 open Hts.Model.Tabix in
 /-- `tabix.ReadFrom` -/
-def readTabix (bs : Bytes) : Except Fault (Option TIndex) :=
+def readTabix (bs : Bytes) : Except Fault TIndex :=
   match rBytes 4 bs with
   | .error e => .error e
   | .ok (m, r1) =>
@@ -267,14 +267,13 @@ def readTabix (bs : Bytes) : Except Fault (Option TIndex) :=
     match rI32 r1 with
     | .error e => .error e
     | .ok (n, r2) =>
-      if n = 0 then .ok none else
       match rTabixHeader r2 with
       | .error e => .error e
       | .ok ((h, names), r3) =>
         if (names.length : Int) ≠ n then .error .err else
         match rIndex n r3 with
         | .error e => .error e
-        | .ok i => .ok (some { hdr := h, names := names, nameMap := buildMap names, idx := i })
+        | .ok i => .ok { hdr := h, names := names, nameMap := buildMap names, idx := i }
 
 open Hts.Model.Tabix in
 def normTabix (t : TIndex) : TIndex :=
@@ -336,7 +335,7 @@ def rCBins (version binLimit : Nat) : P (List CBin × Option Stats) := fun bs =>
   | .ok (n, rest) =>
     if n = 0 then .ok (([], none), rest)
     else if (n % 4294967296).toNat > binLimit then .error .err
-    else if n < 0 then .error .panic
+    else if n < 0 then .error .err
     else match rCBinLoop version (binLimit + 1) n.toNat [] none rest with
       | .error e => .error e
       | .ok ((bins, st), rest') => .ok ((bins.mergeSort leCBin, st), rest')
@@ -372,6 +371,7 @@ def readCsi (bs : Bytes) : Except Fault CIndex :=
         | .error e => .error e
         | .ok (dp, r4) =>
           if dp < 0 then .error .err else
+          if ms + dp * 3 > 62 then .error .err else   -- coordinates are int64, bin numbers uint32
           match rI32 r4 with
           | .error e => .error e
           | .ok (na, r5) =>
